@@ -28,3 +28,13 @@ uniffi::setup_scaffolding!();
 
 #[cfg(all(test, target_arch = "wasm32"))]
 wasm_bindgen_test::wasm_bindgen_test_configure!(run_in_browser);
+
+/// Verification hooks: compiled only with `--cfg eigerco_lumina_verif` (see /verif).
+#[cfg(eigerco_lumina_verif)]
+#[doc(hidden)]
+pub mod verif {
+    pub use crate::abci_proofs::verif as abci_proofs;
+    pub use crate::client::verif as client;
+    pub use crate::tx::verif as tx;
+    pub use crate::utils::verif as utils;
+}
